@@ -9,6 +9,16 @@ BASELINE = ("cd /repo && env -u GSCRIB_VERIF /venv/bin/python -m pytest -ra -q -
 
 # id -> (technique, level text, level note, design ref)
 CLAIMED = {
+    "C03": (
+        "Lean 4 theorems over the Builder model (case analysis per command on the validation conjuncts, induction over "
+        "interpolated paths) + differential correspondence with boundary-biased generation",
+        "Proof: C03_axes_after_motion / C03_probe_target / C03_path_inside (every accepted motion, every segment of any path, "
+        "lands inside the box in force), C03_words (F, S, T and temperature words inside their inclusive ranges on every "
+        "statement any command writes), C03_nan, C03_accepts_inclusive; tied to the source by thousands of bounded histories "
+        "per run, the implementation's output being re-interpreted by an independent oracle.",
+        "Trusted: as C02. Bounds are finite; 'ulp' neighbours are sampled one grid step away; identity transform.",
+        "DESIGN.md section 7 / C03",
+    ),
     "C02": (
         "Lean 4 theorems over the hand-written Builder model (case analysis per command, induction over histories, an independent "
         "2-flag controller reading only emitted codes) + differential correspondence against the real GCodeBuilder",
